@@ -78,10 +78,29 @@ type faultsEnv struct {
 	ops                               []string
 }
 
+// faultsFan records what the controller asks of the fan while it restores (Fan interface level:
+// attempts are seen even when a command cannot be started) and delegates to the real fan.
+type faultsFan struct {
+	fans.Fan
+	env *faultsEnv
+}
+
+func (f *faultsFan) SetPwm(pwm int) error {
+	if f.env.phase == "restore" {
+		f.env.ops = append(f.env.ops, "OpWPwm "+cZ(pwm))
+	}
+	return f.Fan.SetPwm(pwm)
+}
+func (f *faultsFan) SetPwmEnabled(m fans.ControlMode) error {
+	if f.env.phase == "restore" {
+		f.env.ops = append(f.env.ops, "OpWMode "+cZ(int(m)))
+	}
+	return f.Fan.SetPwmEnabled(m)
+}
+
 var (
 	faultsMu  sync.RWMutex
 	faultsReg = map[string]*faultsEnv{}
-	faultsSeq int
 )
 
 func faultsLookup(path string) *faultsEnv {
@@ -132,14 +151,8 @@ func faultsInstallHooks() {
 		switch path {
 		case e.pwmPath:
 			kind = e.cur.PwmWrite
-			if e.phase == "restore" {
-				e.ops = append(e.ops, "OpWPwm "+faultsCZ(string(data)))
-			}
 		case e.enPath:
 			kind = e.cur.ModeWrite
-			if e.phase == "restore" {
-				e.ops = append(e.ops, "OpWMode "+faultsCZ(string(data)))
-			}
 		}
 		switch kind {
 		case "":
@@ -264,13 +277,24 @@ func faultsCurveHasPid(spec faultsCurve) bool {
 
 var faultsKindCoq = map[string]string{"": "FNone", "error": "FErr", "garbage": "FGarbage", "timeout": "FTimeout", "cannotstart": "FCannotStart"}
 
-func faultsRun(ctx *Ctx, in faultsIn) (faultsObs, string, []string) {
-	faultsMu.Lock()
-	faultsSeq++
-	seq := faultsSeq
-	faultsMu.Unlock()
+// faultsPrepare creates the case directory and its scripts. It runs for ALL cases before any worker
+// forks a command: a script written while another goroutine is between fork and exec would be
+// held open for writing by that child and fail to start with ETXTBSY.
+func faultsPrepare(ctx *Ctx, seq int, in faultsIn) {
 	dir := filepath.Join(ctx.WorkDir, "faults", strconv.Itoa(seq))
 	os.MkdirAll(dir, 0755)
+	for _, comp := range []string{"set", "get", "rpm", "temp"} {
+		need := (in.Fan == "cmd" && comp != "temp") || (in.Sensor == "cmd" && comp == "temp")
+		if need {
+			if err := os.WriteFile(filepath.Join(dir, comp+".sh"), []byte(faultsScript), 0755); err != nil {
+				panic(err)
+			}
+		}
+	}
+}
+
+func faultsRun(ctx *Ctx, seq int, in faultsIn) (faultsObs, string, []string) {
+	dir := filepath.Join(ctx.WorkDir, "faults", strconv.Itoa(seq))
 	if r, err := filepath.EvalSymlinks(dir); err == nil {
 		dir = r
 	}
@@ -287,14 +311,6 @@ func faultsRun(ctx *Ctx, in faultsIn) (faultsObs, string, []string) {
 		os.WriteFile(e.rpmPath, []byte(strconv.Itoa(in.Rpm)), 0644)
 	}
 	os.WriteFile(e.tmpPath, []byte("45000"), 0644)
-	for _, comp := range []string{"set", "get", "rpm", "temp"} {
-		need := (in.Fan == "cmd" && comp != "temp") || (in.Sensor == "cmd" && comp == "temp")
-		if need {
-			if err := os.WriteFile(e.script(comp), []byte(faultsScript), 0755); err != nil {
-				panic(err)
-			}
-		}
-	}
 	faultsMu.Lock()
 	for _, p := range []string{e.pwmPath, e.enPath, e.rpmPath, e.tmpPath} {
 		faultsReg[p] = e
@@ -359,6 +375,7 @@ func faultsRun(ctx *Ctx, in faultsIn) (faultsObs, string, []string) {
 	} else {
 		loop = control_loop.NewDirectControlLoop(nil)
 	}
+	fan = &faultsFan{Fan: fan, env: e}
 	c := controller.VerifNewController(nil, fan, curve, loop, 0)
 	pm := map[int]int{}
 	for i := 0; i <= 255; i++ {
@@ -420,15 +437,6 @@ func faultsRun(ctx *Ctx, in faultsIn) (faultsObs, string, []string) {
 		}
 	}
 	e.cur = faultsCyc{}
-	if in.Fan == "cmd" {
-		if b, err := os.ReadFile(filepath.Join(dir, "log")); err == nil {
-			for _, l := range strings.Split(strings.TrimSpace(string(b)), "\n") {
-				if f := strings.Fields(l); len(f) == 2 {
-					e.ops = append(e.ops, "OpWPwm "+faultsCZ(f[1]))
-				}
-			}
-		}
-	}
 	obs.Ops = append([]string{}, e.ops...)
 	obs.Pwm = faultsReadInt(e.pwmPath, -999)
 	obs.Mode = d0Mode
@@ -706,6 +714,9 @@ func init() {
 			tags []string
 		}
 		results := make([]result, len(jobs))
+		for i := range jobs {
+			faultsPrepare(ctx, i, jobs[i].in)
+		}
 		workers := ctx.Param("workers", 12)
 		var wg sync.WaitGroup
 		ch := make(chan int)
@@ -714,7 +725,7 @@ func init() {
 			go func() {
 				defer wg.Done()
 				for i := range ch {
-					o, c, t := faultsRun(ctx, jobs[i].in)
+					o, c, t := faultsRun(ctx, i, jobs[i].in)
 					results[i] = result{o, c, append(t, jobs[i].tags...)}
 				}
 			}()
